@@ -11,6 +11,8 @@ META = {
   "cc->in.vtable = contract stub: check_length is an interval test; decrypt returns NULL or a sub-region of the record body",
   "cc->out.vtable = contract stub: max_plaintext shrinks the region by fixed head/tail overheads (5+head+tail <= 85); encrypt returns a record within [data-5-head, data+len+tail)",
   "buffer lengths concrete per query (minimum sizes and one larger layout); one API call per query",
+  "contract of the real T0 programs used by the renegotiate / recvrec_ack steps: do-handshake (ssl_hs_client.t0:1158-1164, ssl_hs_server.t0:1382-1384) sets application_data = 0 and record_type_out = 22 without flush-record when it is entered for an explicit renegotiation (action 2 with application_data == 1) or an incoming handshake message; the stub therefore records 'handshake started over pending application payload' and the step requires that it never happens (the T0 sources cannot be regenerated in this sandbox, so the guarantee is demanded of the engine; /repo fix f3374ce)",
+  "the stub requires !br_ssl_engine_has_pld_to_send right after the real br_ssl_engine_flush_record (flush-record contract used by do-close, send-HelloRequest and the no_renegotiation warning)",
  ],
  "outside_claim": ["reachability of specific phases with the real T0 coroutine", "liveness while the engine waits for the handshake coroutine", "multi-call interleavings beyond what the inductive argument gives"],
 }
